@@ -994,6 +994,17 @@ func ModifyRegister(register *object.Register, in ast.Node) (ast.Node, bool) {
 		if (in.Type() == token.ASSIGN || in.Type() == token.DEFINE) && in.Left == ast.Node(register) && !integerExpr(in.Right, register) {
 			return nil, false
 		}
+	case *ast.MapLiteral:
+		// {n: x, n: y}: both keys would be the one register node, and the pairs are keyed by node.
+		seen := false
+		for _, k := range in.Order {
+			if k == ast.Node(register) {
+				if seen {
+					return nil, false
+				}
+				seen = true
+			}
+		}
 	case *ast.Builtin:
 		if in.Type() == token.QUOTE {
 			// the quoted tree would keep the register node itself (and print as R[n,name]).
